@@ -758,6 +758,14 @@ func solveRace(workdir, name, query string, timeoutSec int, useSolvers []string)
 			out, _ := cmd.CombinedOutput()
 			r := SolverResult{Solver: sp.name, Output: string(out), Secs: time.Since(t0).Seconds()}
 			first := strings.TrimSpace(strings.SplitN(string(out), "\n", 2)[0])
+			for strings.HasPrefix(first, "WARNING:") { // e.g. "'if' cannot be used in patterns": the solver drops that pattern and goes on
+				rest := strings.SplitN(string(out), "\n", 2)
+				if len(rest) < 2 {
+					break
+				}
+				out = []byte(rest[1])
+				first = strings.TrimSpace(strings.SplitN(string(out), "\n", 2)[0])
+			}
 			switch {
 			case first == "unsat":
 				r.Status = "unsat"
